@@ -27,6 +27,9 @@ def payload_replay(pid, what, queries, detail, files):
                 how='write the project files under a directory D, then run each query with `pathfinder query --project D --output json --query <q>` (bin/check %s --replay <this file> does that)' % pid)
 
 
+import shutil
+
+
 class Campaign:
     def __init__(self, pid, tier, seed, work, nfiles=None):
         self.pid, self.tier, self.seed, self.work = pid, tier, seed, work
@@ -241,7 +244,7 @@ def check_c01_c02(c, result):
     c.tie(tq10, res10, ip10, model10, result)
     oracle(c, tq10, res10, model10, result, c.files, k10)
     c.stats['literal_state_queries'] = len(tq10)
-    c.stats['literal_state_nonempty'] = sum(1 for q_, _ in tq10 if res10.get(q_, ('', ''))[0] == 'ok' and rs_multiset(res10[q_][1], 1))
+    c.stats['literal_state_nonempty'] = sum(1 for q_, _ in tq10 if res10.get(q_, ('', ''))[0] == 'ok' and tuples_of(res10[q_][1], 1))
     # (2d) string literals with multi-byte characters in conditions that are TRUE for (almost) every entity, with and
     # without predicates: a condition cut or re-encoded wrongly loses every match
     tq7, k7 = [], {}
@@ -1363,6 +1366,38 @@ def check_c10_c11(c, result):
                                               how='pathfinder query --project D --output json --query <query>; exit status / panic'))
                 break
     if pid == 'C10':
+        # candidate counts x CPU counts: a tower of directories with one method each, scanned from every level
+        # (n = 1 .. K candidates), under several GOMAXPROCS: what splits the candidates into chunks must do so for every n
+        K = 210 if c.tier == 'quick' else 700
+        tower = c.work + '/tower'
+        d = tower
+        for i in range(K):
+            d = d + '/d'
+            os.makedirs(d, exist_ok=True)
+            open('%s/M%d.java' % (d, i), 'w').write('class M%d { void m%d() { } }\n' % (i, i))
+        sweep_q = [('sw0', 'FROM method_declaration AS m WHERE m.getName() != "zz" SELECT m.getName()'), ('sw1', 'FROM method_declaration AS m WHERE m.getName() SELECT m'),
+                   ('sw2', 'FROM method_declaration AS m SELECT m.getName()')]
+        procs = ['16', '24', '64', '3', '8', '2', '48', '12']
+        ns = list(range(120, K + 1)) if c.tier == 'quick' else list(range(1, K + 1))
+        for j, n in enumerate(ns):
+            path = tower + '/d' * (K - n + 1)
+            for pr in ([procs[j % len(procs)]] if c.tier == 'quick' else procs[:6]):
+                rsw, _ = qrun.run_queries(path, sweep_q, c.work + '/sweep', env_extra=dict(GOMAXPROCS=pr))
+                c.stats['size_cpu_sweep_runs'] += 1
+                badq = next((q_ for q_ in sweep_q if rsw.get(q_[0], ('missing', ''))[0] not in ('ok', 'err')), None)
+                if badq:
+                    result.violations.append(dict(property='C10', what='a query ended abnormally (%s) with %d candidates under GOMAXPROCS=%s' % (rsw.get(badq[0], ('missing', ''))[0], n, pr),
+                                                  query=badq[1], detail=rsw.get(badq[0], ('', ''))[1][:300], project='%d files M<i>.java, each `class M<i> { void m<i>() { } }`' % n,
+                                                  how='GOMAXPROCS=%s pathfinder query --project D --output json --query <query>; exit status / panic' % pr))
+                    break
+                got = rsw.get('sw2', ('', ''))
+                if got[0] == 'ok' and sum(tuples_of(got[1], 1).values()) != n:
+                    result.tie_broken.append('size sweep: %d methods scanned but %d reported (GOMAXPROCS=%s)' % (n, sum(tuples_of(got[1], 1).values()), pr))
+                    break
+            else:
+                continue
+            break
+        shutil.rmtree(tower, ignore_errors=True)
         # the console: sessions with unusual lines (very long: past every buffer size a reader might have; CRLF;
         # empty; only blanks; no final newline after :quit) — every submitted line is answered and the session ends
         # with :quit
